@@ -37,6 +37,9 @@ FormLookup(S) == Pred("f", Sub([T |-> "Tuple", elts |-> [v \in 1..N |-> CB((v - 
 FormTuple(S) == FunDef("f", <<Arg("t", TList(TBool, NB))>>,
                        <<Ret(OrAll([j \in 1..Cardinality(S) |-> AndAll([b \in 1..NB |-> TupLit(SetSeq(S)[j], b - 1)])]))>>, TBool)
 
+\* two comparisons that share an arithmetic sub-expression (a borrow / carry chain: nested common sub-expressions)
+FormArith(S, op) == LET q == SetSeq(S) IN
+  Pred("f", OrAll([j \in 1..Cardinality(S) |-> Cmp("Eq", Bin(op, X, CI(1)), CI(IF op = "Sub" THEN q[j] - 1 ELSE q[j] + 1))]))
 Sets(maxm) == UNION {kSubset(k, Vals) : k \in 1..maxm}
 
 Grover(u) ==
@@ -44,6 +47,10 @@ Grover(u) ==
   \cup {[kind |-> "grover", n |-> NB, form |-> "bits", def |-> FormBits(S), nmatch |-> Cardinality(S)] : S \in Sets(MaxM)}
   \cup {[kind |-> "grover", n |-> NB, form |-> "lookup", def |-> FormLookup(S), nmatch |-> Cardinality(S)] : S \in Sets(MaxM)}
   \cup {[kind |-> "grover", n |-> NB, form |-> "tuple", def |-> FormTuple(S), nmatch |-> Cardinality(S)] : S \in Sets(MaxM)}
+  \cup (IF NB >= 3 THEN {[kind |-> "grover", n |-> NB, form |-> "arith", def |-> FormArith(S, "Sub"), nmatch |-> Cardinality(S)] :
+                            S \in {T \in Sets(MaxM) : Cardinality(T) = 2 /\ 0 \notin T}}
+                        \cup {[kind |-> "grover", n |-> NB, form |-> "arith", def |-> FormArith(S, "Add"), nmatch |-> Cardinality(S)] :
+                            S \in {T \in Sets(MaxM) : Cardinality(T) = 2 /\ (N - 1) \notin T}} ELSE {})
   \* g(x) = x ^ c searched for y (one solution), g(x) = x & m searched for y (several)
   \cup {[kind |-> "grover", n |-> NB, form |-> "element", nmatch |-> 1, element |-> y,
          def |-> FunDef("g", <<Arg("x", TX)>>, <<Ret(Bin("BitXor", X, CI(c)))>>, TX)] : c \in {1, N - 1}, y \in {0, 1, N - 2}}
@@ -56,6 +63,11 @@ DJ(u) == {[kind |-> "dj", n |-> NB, form |-> fm, def |-> (IF fm = "bits" THEN Fo
          \* the argument as a list of bools (the decoded all-zero outcome is then a tuple, not the number 0)
          \cup (IF NB = 1 THEN {} ELSE {[kind |-> "dj", n |-> NB, form |-> "tuple", def |-> FormTuple(S)] : S \in Balanced(u) \cup {Vals}})
 
+\* the argument is ASSIGNED AGAIN in the body (x = x ^ c: a bijection, so the class of the function is kept) and the function is
+\* compiled with fastOptimizer (opt = "fast"): the argument's name then moves to another qubit of the oracle
+Reassign(d, c) == [d EXCEPT !.body = <<Assign("x", Bin("BitXor", X, CI(c)))>> \o d.body]
+DJ2(u) == IF NB = 1 THEN {} ELSE
+          {[kind |-> "dj", n |-> NB, form |-> "reassign", opt |-> "fast", def |-> Reassign(FormBits(S), c)] : S \in Balanced(u) \cup {Vals}, c \in {1, N - 1}}
 SetSeqBits(s) == LET js == SetSeq({j \in 0..(NB - 1) : BitOf(s, j)}) IN [k \in 1..Len(js) |-> Sub(X, CI(js[k]))]
 XorAll(es) == LET RECURSIVE F(_) F(j) == IF j = Len(es) THEN es[j] ELSE Bin("BitXor", es[j], F(j + 1)) IN F(1)
 BV(u) == {[kind |-> "bv", n |-> NB, form |-> fm, secret |-> s,
@@ -71,7 +83,8 @@ Simon(u) == {[kind |-> "simon", n |-> NB, form |-> fm, period |-> s,
                           IF fm = "rank-narrow" THEN TInt(NB - 1) ELSE IF fm = "rank-wide" THEN TInt(NB + 1) ELSE TX)] :
             s \in Vals \ {0}, fm \in (IF NB >= 3 THEN {"min", "rank", "rank-narrow", "rank-wide"} ELSE {"min", "rank", "rank-wide"})}
 
-Pool == CASE Kind = "grover" -> Grover(0) [] Kind = "dj" -> DJ(0) [] Kind = "bv" -> BV(0) [] Kind = "simon" -> Simon(0)
+Simon2(u) == {[r EXCEPT !.form = "reassign-" \o r.form, !.def = Reassign(r.def, c)] @@ [opt |-> "fast"] : r \in {q \in Simon(u) : q.form \in {"min", "rank"}}, c \in {1, N - 1}}
+Pool == CASE Kind = "grover" -> Grover(0) [] Kind = "dj" -> DJ(0) \cup DJ2(0) [] Kind = "simon" -> Simon(0) \cup Simon2(0) [] Kind = "bv" -> BV(0)
 Init == f \in Pool
 Next == FALSE /\ f' = f
 Spec == Init /\ [][Next]_f
